@@ -44,7 +44,7 @@ func Positions(root any) []Position {
 	var walk func(path string, get func(tree any) any, set func(tree any, with any) any, v any, depth int)
 	walk = func(path string, get func(any) any, set func(any, any) any, v any, depth int) {
 		out = append(out, Position{Path: path, Replace: func(with any) any { return set(deepCopy(root), with) }})
-		if depth > 6 {
+		if depth > 14 {
 			return
 		}
 		switch x := v.(type) {
